@@ -139,8 +139,8 @@ theorem instanceByToken_eq (d : Desc) (hn : (d.flatMap (·.tokens)).Nodup) (i : 
     rw [owner_unique (·.tokens) d hn j hj i hi t hjt ht]
 
 theorem zoneFlagsOf_eq (d : Desc) (hn : (d.flatMap (·.tokens)).Nodup) (zone id : String) :
-    zoneFlagsOf d ((zoneTokens d zone).map (·.1)) id = some (zoneFlags d zone id) := by
-  unfold zoneFlagsOf zoneFlags
+    zoneFlagsIdx (instanceByToken d) ((zoneTokens d zone).map (·.1)) id = some (zoneFlags d zone id) := by
+  unfold zoneFlagsIdx zoneFlags
   apply mapM_option_some
   intro p hp
   obtain ⟨t, i⟩ := p
@@ -153,7 +153,7 @@ same descriptor). -/
 theorem rangesForInstanceWith_consistent (walk : List (Nat × Bool) → List Nat) (d : Desc) (za : Bool) (rf : Nat)
     (id : String) : rangesForInstanceWith walk d za rf id ≠ .error .inconsistent ∧
       rangesForInstanceWith walk d za rf id ≠ .error .panic := by
-  unfold rangesForInstanceWith
+  unfold rangesForInstanceWith rangesForInstanceIdx
   cases d.get? id with
   | none => simp
   | some inst =>
@@ -164,8 +164,8 @@ theorem rangesForInstanceWith_consistent (walk : List (Nat × Bool) → List Nat
       · simp
       · split
         · simp
-        · have hsome : (zoneFlagsOf d ((zoneTokens d inst.zone).map (·.1)) id).isSome := by
-            unfold zoneFlagsOf
+        · have hsome : (zoneFlagsIdx (instanceByToken d) ((zoneTokens d inst.zone).map (·.1)) id).isSome := by
+            unfold zoneFlagsIdx
             apply mapM_option_isSome
             intro t ht
             obtain ⟨⟨t', i⟩, hp, rfl⟩ := List.mem_map.mp ht
@@ -174,7 +174,7 @@ theorem rangesForInstanceWith_consistent (walk : List (Nat × Bool) → List Nat
             cases hb : instanceByToken d t' with
             | none => rw [hb] at h2; cases h2
             | some _ => rfl
-          cases hz : zoneFlagsOf d ((zoneTokens d inst.zone).map (·.1)) id with
+          cases hz : zoneFlagsIdx (instanceByToken d) ((zoneTokens d inst.zone).map (·.1)) id with
           | none => rw [hz] at hsome; cases hsome
           | some zt => simp
 
@@ -194,7 +194,7 @@ theorem rangesForInstanceWith_exact (walk : List (Nat × Bool) → List Nat) (d 
     | cons _ _ => rfl
   refine ⟨walk (zoneFlags d inst.zone inst.id), ?_, ?_⟩
   · have hne2 : ((zoneTokens d inst.zone).map (·.1)).isEmpty = false := by simpa using hne'
-    simp only [rangesForInstanceWith, hget, hz', hne2, zoneFlagsOf_eq d h.unique]
+    simp only [rangesForInstanceWith, rangesForInstanceIdx, hget, hz', hne2, zoneFlagsOf_eq d h.unique]
     simp
   · intro k hk
     rw [hwalk k hk, lookupInZone_iff d h inst hi k]
